@@ -137,6 +137,26 @@ CHECKS = {
         note="Trusted: TLC, the probe on write_output_file, name-based presence detection. setup.py and the "
              "*_types.yaml file are treated as auxiliary files of --outdir.",
     ),
+    "C14": dict(
+        level="model_checking",
+        design="DESIGN.md section 4 / C14",
+        technique="TLA+ spec Scope (tree of scopes, Eff = nearest enclosing setting, PushDown / empty block / set "
+                  "as tree operations, self-composition of a tree and its transform) model-checked with TLC; "
+                  "effective values reported by real nodes built from random YAML descriptions validated against Eff "
+                  "by TLC; byte comparison of outputs of equivalent description pairs",
+        text="TLC checks on every tree of <= 3 (thorough 4) scopes x every placement of two keys that pushing a "
+             "setting down from a container to its children, and wrapping children in an empty block, leave the "
+             "value in force at every declaration unchanged, and that a setting is invisible outside its subtree and "
+             "reaches everything inside that does not override it. Conformance: (eff) random descriptions of up to 9 "
+             "scopes (library, namespace, class, block, function; depth 3) with options and format fields set at "
+             "random levels go through the real create_library_from_dictionary; the scope tree is taken from the YAML "
+             "nesting and TLC compares the value each real function node reports with Eff; (pair) container-level vs "
+             "per-declaration settings for 6 keys x {block, namespace, library}, sibling namespaces, nested and empty "
+             "blocks, inline attributes vs attrs/fattrs, --option / --language vs YAML, create_wrapper vs the command "
+             "line are generated for real and compared byte for byte.",
+        note="Trusted: TLC, PyYAML, the harness's YAML-to-tree projection. Only function-scoped keys are pushed down; "
+             "doxygen on a namespace and library-level format fields are excluded (they also govern file-level text).",
+    ),
 }
 
 ALL = ["C%02d" % i for i in range(1, 19)]
